@@ -22,7 +22,7 @@ func init() {
 	Register(&Rule{
 		ID:    "R-SCRATCH",
 		Doc:   "in every container loop of the json/thrift decoders, each loop-invariant decode destination (address-taken local, reflect.Value created before the loop) passed to a decode function is reset inside the loop (a store to the local / reflect.Value.Set with a loop-invariant zero)",
-		Props: []string{"C02", "C04", "C01"},
+		Props: []string{"C02", "C04", "C01", "C13"},
 		Min:   map[string]int{"C02": 8, "C04": 2, "C01": 1},
 		Run:   runScratch,
 	})
@@ -115,7 +115,7 @@ func runScratch(c *core.Ctx) []core.Obligation {
 	for _, fn := range fns {
 		props := []string{"C02"}
 		if strings.HasPrefix(shortName(fn), "thrift.") {
-			props = []string{"C04"}
+			props = []string{"C04", "C13"}
 		}
 		for _, h := range loopHeaders(fn) {
 			body := loopBlocks(h)
